@@ -216,51 +216,62 @@ def run(prog: Program, chk: Check):
         return all(norm(e_) in (f"{lpn.ast.target.id} is not {mp}", f"{lpn.ast.target.id} != {mp}") for e_, _ in extra_)
 
     loops = [n for n in g.nodes if n.kind == "for" and whole_table(n)]
-    if len(loops) != 1:
+    if not loops:
         raise AnalysisError("anchor vanished: uniqueness loop over self.modules.values() in connect_module")
-    lp = loops[0]
-    mv = path_of(lp.ast.target)
-    loop_facts = comprehension_facts(cm.node, mv)
     follow_static = lambda e: not (e.src in dyn_ids and e.kind != "exc")
-    # static path must complete the loop: connected reachable only via the loop's 'done' edge
-    r = flow.reach(g, [g.entry.id], follow=lambda e: follow_static(e) and not (e.src == lp.id and e.kind == "done"))
-    completed = conn[0].id not in r
-    if not completed:
-        # the loop may be left by `break` with a flag that the code after it turns into a refusal: follow the paths that
-        # took a break out of this loop (ghost mark) and see whether any of them still reaches connected=True
-        def nearest_loop(a):
-            for p_ in ancestors(a):
-                if isinstance(p_, (ast.For, ast.While)):
-                    return p_
-            return None
 
-        brk = {n.id for n in g.nodes if isinstance(n.ast, ast.Break) and nearest_loop(n.ast) is lp.ast}
-        lbody = {n.id for n in g.nodes if n.ast is not None and any(a is lp.ast for a in ancestors(n.ast))}
-        leaves_other = [e for n in lbody | {lp.id} for e in g.succ[n] if e.dst not in lbody and e.dst != lp.id and e.kind != "exc" and not (e.src == lp.id and e.kind == "done")
-                        and e.src not in brk and e.dst != g.exit.id]
-        if brk and not leaves_other:
-            gsm = flow.guard_states(g, edge_filter=follow_static, marks=lambda e: "_left_by_break" if e.src in brk else None)
-            completed = not any(any(getattr(ex, "id", None) == "_left_by_break" for ex, _ in p_) for p_ in gsm.at(conn[0]))
-    G.decide(completed, fkey(cm, "loop-completed"), where(cm, lp.ast), "static admission passes the exhausted uniqueness loop",
+    def nearest_loop(a):
+        for p_ in ancestors(a):
+            if isinstance(p_, (ast.For, ast.While)):
+                return p_
+        return None
+
+    def loop_completed(lp) -> bool:
+        # static path must complete the loop: connected reachable only via the loop's 'done' edge
+        r = flow.reach(g, [g.entry.id], follow=lambda e: follow_static(e) and not (e.src == lp.id and e.kind == "done"))
+        completed = conn[0].id not in r
+        if not completed:
+            # the loop may be left by `break` with a flag that the code after it turns into a refusal: follow the paths that
+            # took a break out of this loop (ghost mark) and see whether any of them still reaches connected=True
+            brk = {n.id for n in g.nodes if isinstance(n.ast, ast.Break) and nearest_loop(n.ast) is lp.ast}
+            lbody = {n.id for n in g.nodes if n.ast is not None and any(a is lp.ast for a in ancestors(n.ast))}
+            leaves_other = [e for n in lbody | {lp.id} for e in g.succ[n] if e.dst not in lbody and e.dst != lp.id and e.kind != "exc" and not (e.src == lp.id and e.kind == "done")
+                            and e.src not in brk and e.dst != g.exit.id]
+            if brk and not leaves_other:
+                gsm = flow.guard_states(g, edge_filter=follow_static, marks=lambda e: "_left_by_break" if e.src in brk else None)
+                completed = not any(any(getattr(ex, "id", None) == "_left_by_break" for ex, _ in p_) for p_ in gsm.at(conn[0]))
+        return completed
+
+    incomplete = [lp for lp in loops if not loop_completed(lp)]
+    G.decide(not incomplete, fkey(cm, "loop-completed"), where(cm, loops[0].ast), "static admission passes the exhausted uniqueness loop",
              "connected=True is reachable for a static id without completing the loop over all modules")
-    # per iteration: continuing to the next module requires no id / name conflict
-    id_goal = guards.parse(f"{mv} is {mp} or not ({mv}.mod_id == {mp}.mod_id) or (not {mv}.unique and not {mp}.unique)")
-    nm_goal = guards.parse(f"{mv} is {mp} or not {mp}.name or not (({mv}.unique or {mp}.unique) and {mv}.name == {mp}.name)")
-    body_ids = {n.id for n in g.nodes if n.ast is not None and any(a is lp.ast for a in ancestors(n.ast))}
-    bad_id, bad_nm, nb = [], [], 0
-    for e in g.pred[lp.id]:
-        if e.src not in body_ids:
-            continue
-        nb += 1
-        paths = fold([list(p_) + loop_facts for p_ in gs.after_edge(e)])  # locals such as `exclusive = m.unique or module.unique` are looked through
-        if guards.any_path_implies(paths, id_goal):
-            bad_id.append(e)
-        if guards.any_path_implies(paths, nm_goal):
-            bad_nm.append(e)
-    G.decide(nb > 0 and not bad_id, fkey(cm, "iteration:id-conflict-refused"), where(cm, lp.ast),
+
+    # per iteration: continuing to the next module requires no id / name conflict (with several scans over the table, each
+    # requirement must be enforced by one of them)
+    def iteration_ok(lp):
+        mv = path_of(lp.ast.target)
+        loop_facts = comprehension_facts(cm.node, mv)
+        id_goal = guards.parse(f"{mv} is {mp} or not ({mv}.mod_id == {mp}.mod_id) or (not {mv}.unique and not {mp}.unique)")
+        nm_goal = guards.parse(f"{mv} is {mp} or not {mp}.name or not (({mv}.unique or {mp}.unique) and {mv}.name == {mp}.name)")
+        body_ids = {n.id for n in g.nodes if n.ast is not None and any(a is lp.ast for a in ancestors(n.ast))}
+        bad_id, bad_nm, nb = [], [], 0
+        for e in g.pred[lp.id]:
+            if e.src not in body_ids:
+                continue
+            nb += 1
+            paths = fold([list(p_) + loop_facts for p_ in gs.after_edge(e)])  # locals such as `exclusive = m.unique or module.unique` are looked through
+            if guards.any_path_implies(paths, id_goal):
+                bad_id.append(e)
+            if guards.any_path_implies(paths, nm_goal):
+                bad_nm.append(e)
+        return nb > 0 and not bad_id, nb > 0 and not bad_nm
+
+    verdicts = [iteration_ok(lp) for lp in loops]
+    lp = loops[0]
+    G.decide(any(v[0] for v in verdicts), fkey(cm, "iteration:id-conflict-refused"), where(cm, lp.ast),
              "an iteration continues only if ids differ or both modules allow multiple instances",
              "the uniqueness loop can continue past an incumbent with the same id although one of the two is unique")
-    G.decide(nb > 0 and not bad_nm, fkey(cm, "iteration:name-conflict-refused"), where(cm, lp.ast),
+    G.decide(any(v[1] for v in verdicts), fkey(cm, "iteration:name-conflict-refused"), where(cm, lp.ast),
              "an iteration continues only if names differ or neither module is unique (explicit id)",
              "the loop can continue past an incumbent with the same name although one of the two is unique")
     # assign_module_id
@@ -320,8 +331,30 @@ def run(prog: Program, chk: Check):
                 # `cursor = (cursor + 1) % span` keeps the cursor in [0, span) by construction
                 modular = isinstance(v, ast.BinOp) and isinstance(v.op, ast.Mod) and norm(guards.subst(v.left, cur_sub if f.key == am.key else {})) in ("self.next_dynamic_mod_id_offset + 1", "1 + self.next_dynamic_mod_id_offset") \
                     and f.key == am.key and _eval_local(prog, am, v.right) == span
+                # `following = cursor + 1; ...; cursor = following` on paths where following == span is excluded
+                succ_ok = False
+                if isinstance(v, ast.Name) and f.key == am.key and len(cur_locals.get(v.id, [])) == 1 \
+                        and norm(guards.subst(cur_locals[v.id][0], cur_sub)) in (f"{CUR} + 1", f"1 + {CUR}"):
+                    nodes_ = [x for x in ag.nodes if x.ast is n]
+                    if len(nodes_) == 1:
+                        def excludes_span(path):
+                            for ex, pol in path:
+                                if isinstance(ex, ast.Compare) and len(ex.ops) == 1 and isinstance(ex.ops[0], (ast.Eq, ast.NotEq)):
+                                    l_, r_ = ex.left, ex.comparators[0]
+                                    other = r_ if path_of(l_) == v.id else (l_ if path_of(r_) == v.id else None)
+                                    if other is not None and (isinstance(ex.ops[0], ast.Eq)) != pol:
+                                        try:
+                                            if _eval_local(prog, am, other) == span:
+                                                return True
+                                        except AnalysisError:
+                                            pass
+                            return False
+                        ps_ = ags.at(nodes_[0])
+                        succ_ok = bool(ps_) and all(excludes_span(p_) for p_ in ps_)
                 if modular:
                     n_modular += 1
+                elif succ_ok:
+                    n_modular += 1  # like the modular form: successor and wrap in one step, no separate wrap test needed
                 elif not (isinstance(v, ast.Constant) and v.value == 0):
                     okw = False
                     why.append(norm(n))
